@@ -33,6 +33,11 @@ type Call struct {
 	Outcome  string   // "ok" "noop" "error" "cancelled" "parked"
 	release  chan Action
 	released bool
+	// Effected: the daemon has carried the request out (Effect) but its
+	// answer is still on the way: the call stays parked, no longer listens
+	// to its context, and returns the recorded result when completed.
+	Effected  bool
+	effectErr error
 }
 
 // ErrIPFS is the daemon failure injected by Fail.
@@ -85,10 +90,23 @@ func (m *IPFS) begin(ctx context.Context, kind string, c cid.Cid, pin *api.Pin) 
 		case act = <-call.release:
 		case <-ctx.Done():
 			m.mu.Lock()
+			if call.Effected {
+				// carried out already: only the answer is missing, and it
+				// arrives when the harness says so
+				m.mu.Unlock()
+				act = <-call.release
+				break
+			}
 			call.Outcome = "cancelled"
 			call.released = true
 			m.mu.Unlock()
 			return call, Fail, ctx.Err()
+		}
+		m.mu.Lock()
+		eff := call.Effected
+		m.mu.Unlock()
+		if eff {
+			return call, Apply, nil
 		}
 	}
 	if act == Fail {
@@ -203,8 +221,15 @@ func (m *IPFS) Pin(ctx context.Context, pin *api.Pin) error {
 	}
 	m.mu.Lock()
 	defer m.mu.Unlock()
+	if call.Effected {
+		return call.effectErr
+	}
+	return m.pinLocked(call)
+}
+
+func (m *IPFS) pinLocked(call *Call) error {
 	cur, ok := m.Table[call.Cid]
-	want := wanted(pin)
+	want := wanted(call.Pin)
 	switch {
 	case ok && cur == want:
 		call.Outcome = "noop"
@@ -218,6 +243,34 @@ func (m *IPFS) Pin(ctx context.Context, pin *api.Pin) error {
 	return nil
 }
 
+func (m *IPFS) unpinLocked(call *Call) error {
+	if _, ok := m.Table[call.Cid]; ok {
+		delete(m.Table, call.Cid)
+		call.Outcome = "ok"
+	} else {
+		call.Outcome = "noop"
+	}
+	return nil
+}
+
+// Effect makes the daemon carry out a parked pin or unpin call now while its
+// answer stays on the way (what happens when the daemon finishes a request
+// just as the client gives up on it): the call remains parked, stops listening
+// to its context, and Complete delivers the recorded result.
+func (m *IPFS) Effect(c *Call) {
+	m.mu.Lock()
+	defer m.mu.Unlock()
+	if c.released || c.Effected || (c.Kind != "pin" && c.Kind != "unpin") {
+		return
+	}
+	c.Effected = true
+	if c.Kind == "pin" {
+		c.effectErr = m.pinLocked(c)
+	} else {
+		c.effectErr = m.unpinLocked(c)
+	}
+}
+
 // Unpin implements IPFSConnector.
 func (m *IPFS) Unpin(ctx context.Context, c cid.Cid) error {
 	call, _, err := m.begin(ctx, "unpin", c, nil)
@@ -226,13 +279,10 @@ func (m *IPFS) Unpin(ctx context.Context, c cid.Cid) error {
 	}
 	m.mu.Lock()
 	defer m.mu.Unlock()
-	if _, ok := m.Table[call.Cid]; ok {
-		delete(m.Table, call.Cid)
-		call.Outcome = "ok"
-	} else {
-		call.Outcome = "noop"
+	if call.Effected {
+		return call.effectErr
 	}
-	return nil
+	return m.unpinLocked(call)
 }
 
 // PinLsCid implements IPFSConnector.
